@@ -22,6 +22,22 @@ Definition t_update_client (x : ipdb) (now : Z) (ip : option N) (duid : bytes) (
     if negb ok2 then (false, t2) else t_set_lease now n duid until t2
   end.
 
+Definition t_hold_client (x : ipdb) (now : Z) (ip : option N) (duid : bytes) (ttl : Z) (t : table) : bool * table :=
+  match to_uip x ip with
+  | None => (false, t)
+  | Some n =>
+    match t_lookup now n duid t with
+    | (Some p, Some q) =>
+      if Nat.eqb p q then
+        match nth_error t p with
+        | Some e => if (now + ttl <? e_until e)%Z then (true, t) else t_update_client x now ip duid ttl t
+        | None => t_update_client x now ip duid ttl t
+        end
+      else t_update_client x now ip duid ttl t
+    | _ => t_update_client x now ip duid ttl t
+    end
+  end.
+
 Fixpoint t_search (cands : list N) (i : nat) (cancelled : nat -> bool) (probe : N -> bool * Z)
                   (now : Z) (x : ipdb) (t : table) : option N * Z :=
   match cands with
@@ -52,12 +68,22 @@ Definition t_find_ip (x : ipdb) (perm : list N) (cancelled : nat -> bool) (probe
     t_search cands 0 cancelled probe now x t
   end.
 
+Definition t_offer_ip (x : ipdb) (perm : list N) (cancelled : nat -> bool) (probe : N -> bool * Z) (now : Z)
+                      (sugg : option N) (duid : bytes) (ttl : Z) (t : table) : option N * table * Z :=
+  let (r, t1) := t_find_ip x perm cancelled probe now sugg duid t in
+  match r with
+  | None => (None, t, t1)
+  | Some a => let (ok, t2) := t_hold_client x t1 (Some a) duid ttl t in ((if ok then Some a else None), t2, t1)
+  end.
+
 (* ---- histories ---- *)
 Inductive dbop :=
 | OpUpdate (ip : option N) (duid : bytes) (ttl : Z)
 | OpLookup (duid : bytes)
 | OpAddPerm (ip : option N) (duid : bytes)
-| OpFind (perm : list N) (cancelled : nat -> bool) (probe : N -> bool * Z) (sugg : option N) (duid : bytes).
+| OpFind (perm : list N) (cancelled : nat -> bool) (probe : N -> bool * Z) (sugg : option N) (duid : bytes)
+| OpHold (ip : option N) (duid : bytes) (ttl : Z)
+| OpOffer (perm : list N) (cancelled : nat -> bool) (probe : N -> bool * Z) (sugg : option N) (duid : bytes) (ttl : Z).
 
 Inductive dbres := RBool (b : bool) | RIp (o : option N).
 
@@ -67,6 +93,8 @@ Definition c_step (x : ipdb) (now : Z) (op : dbop) : dbres * ipdb * Z :=
   | OpLookup d => let (r, x') := lookup_by_duid now d x in (RIp r, x', now)
   | OpAddPerm ip d => let (ok, x') := add_permanent now ip d x in (RBool ok, x', now)
   | OpFind perm c pr sg d => let '(r, x', now') := find_ip perm c pr now sg d x in (RIp r, x', now')
+  | OpHold ip d ttl => let (ok, x') := hold_client now ip d ttl x in (RBool ok, x', now)
+  | OpOffer perm c pr sg d ttl => let '(r, x', now') := offer_ip perm c pr now sg d ttl x in (RIp r, x', now')
   end.
 
 Definition t_step (x : ipdb) (t : table) (now : Z) (op : dbop) : dbres * table * Z :=
@@ -75,6 +103,8 @@ Definition t_step (x : ipdb) (t : table) (now : Z) (op : dbop) : dbres * table *
   | OpLookup d => (RIp (t_lookup_by_duid now d t), t, now)
   | OpAddPerm ip d => let (ok, t') := t_add_permanent x now ip d t in (RBool ok, t', now)
   | OpFind perm c pr sg d => let (r, now') := t_find_ip x perm c pr now sg d t in (RIp r, t, now')
+  | OpHold ip d ttl => let (ok, t') := t_hold_client x now ip d ttl t in (RBool ok, t', now)
+  | OpOffer perm c pr sg d ttl => let '(r, t', now') := t_offer_ip x perm c pr now sg d ttl t in (RIp r, t', now')
   end.
 
 (* a history: before each operation the clock advances by dt *)
@@ -91,5 +121,5 @@ Fixpoint t_run (x : ipdb) (t : table) (now : Z) (h : list (Z * dbop)) : list dbr
   end.
 
 Definition probe_nonneg (op : dbop) : Prop :=
-  match op with OpFind _ _ pr _ _ => forall a, (0 <= snd (pr a))%Z | _ => True end.
+  match op with OpFind _ _ pr _ _ => forall a, (0 <= snd (pr a))%Z | OpOffer _ _ pr _ _ _ => forall a, (0 <= snd (pr a))%Z | _ => True end.
 Definition clock_ok (h : list (Z * dbop)) : Prop := Forall (fun p => (0 <= fst p)%Z /\ probe_nonneg (snd p)) h.
